@@ -483,3 +483,50 @@ fn type_tokens_upper(t: &Ty, out: &mut Vec<Tok>) {
         other => nm(out, &other.sql()),
     }
 }
+
+// ---------------------------------------------------------------------------------------------
+// TableSpec <-> JSON (so that extraction cases can be stored and replayed with their intended structure)
+
+impl TableSpec {
+    pub fn to_json(&self) -> J {
+        json!({
+            "name": self.name,
+            "patterns": self.patterns.iter().map(|p| json!({"name": p.name, "regex": p.regex, "split": p.split})).collect::<Vec<_>>(),
+            "cols": self.cols.iter().map(|c| json!({
+                "name": c.name, "ty": c.ty.sql().to_lowercase(),
+                "src": match &c.src {
+                    Src::Group(p, i) => json!(["group", p, i]),
+                    Src::Multi(gs) => json!(["multi", gs.iter().map(|(p, i)| json!([p, i])).collect::<Vec<_>>()]),
+                    Src::Inline(r) => json!(["inline", r]),
+                    Src::Json(steps) => json!(["json", steps.iter().map(|s| match s { JsonStep::Field(f) => json!(f), JsonStep::Index(i) => json!(i) }).collect::<Vec<_>>()]),
+                },
+                "modifier": match &c.modifier {
+                    Modifier::None => json!(null), Modifier::NotNull => json!("notnull"), Modifier::Trim => json!("trim"), Modifier::Convert => json!("convert"),
+                    Modifier::Microseconds => json!("microseconds"), Modifier::Default(e) => json!({"default": e.to_json()}),
+                },
+            })).collect::<Vec<_>>(),
+        })
+    }
+
+    pub fn from_json(j: &J) -> Option<TableSpec> {
+        let mut patterns = Vec::new();
+        for p in j.get("patterns")?.as_array()? { patterns.push(PatSpec { name: p.get("name")?.as_str()?.to_owned(), regex: p.get("regex")?.as_str()?.to_owned(), split: p.get("split")?.as_bool()? }); }
+        let mut cols = Vec::new();
+        for c in j.get("cols")?.as_array()? {
+            let s = c.get("src")?.as_array()?;
+            let src = match s.first()?.as_str()? {
+                "group" => Src::Group(s.get(1)?.as_str()?.to_owned(), s.get(2)?.as_u64()?),
+                "multi" => Src::Multi(s.get(1)?.as_array()?.iter().map(|g| { let a = g.as_array()?; Some((a.first()?.as_str()?.to_owned(), a.get(1)?.as_u64()?)) }).collect::<Option<Vec<_>>>()?),
+                "inline" => Src::Inline(s.get(1)?.as_str()?.to_owned()),
+                "json" => Src::Json(s.get(1)?.as_array()?.iter().map(|x| if let Some(f) = x.as_str() { Some(JsonStep::Field(f.to_owned())) } else { x.as_u64().map(JsonStep::Index) }).collect::<Option<Vec<_>>>()?),
+                _ => return None,
+            };
+            let m = c.get("modifier")?;
+            let modifier = if m.is_null() { Modifier::None } else if let Some(s) = m.as_str() {
+                match s { "notnull" => Modifier::NotNull, "trim" => Modifier::Trim, "convert" => Modifier::Convert, "microseconds" => Modifier::Microseconds, _ => return None }
+            } else { Modifier::Default(E::from_json(m.get("default")?)?) };
+            cols.push(ColSpec { name: c.get("name")?.as_str()?.to_owned(), ty: ty_from_sql(c.get("ty")?.as_str()?)?, src, modifier });
+        }
+        Some(TableSpec { name: j.get("name")?.as_str()?.to_owned(), patterns, cols })
+    }
+}
